@@ -182,7 +182,24 @@ func (e *Engine) registerIntrinsics() {
 		return nil, ctlNext
 	}
 	in["vf:vfNote"] = func(w *Worker, g *G, fr *Frame, fn *ssa.Function, a []Value) (Value, ctl) {
-		w.st.trace = append(w.st.trace, constString(a[0])+"="+showValue(a[1]))
+		v := a[1]
+		if iv, ok := v.(IfaceV); ok && iv.T != nil {
+			switch x := iv.V.(type) {
+			case SliceV:
+				if x.O != nil {
+					v = IfaceV{T: iv.T, V: &ArrayV{append([]Value(nil), w.sliceElems(x)...)}}
+				}
+			case PtrV:
+				if x.O != nil {
+					if c, ok := w.st.heap.get(x.O); ok {
+						if b, ok := getPath(c, x.Path).(*BigV); ok {
+							v = IfaceV{T: iv.T, V: b}
+						}
+					}
+				}
+			}
+		}
+		w.st.notes = append(w.st.notes[:len(w.st.notes):len(w.st.notes)], NoteRec{constString(a[0]), v})
 		return nil, ctlNext
 	}
 	in["vf:vfConcrete"] = func(w *Worker, g *G, fr *Frame, fn *ssa.Function, a []Value) (Value, ctl) {
@@ -314,12 +331,21 @@ func (w *Worker) cover(site string) {
 	w.recordSite(site)
 	if !have {
 		// obtain a model reaching this site
-		r, m := w.sol.CheckModel(w.st.pc, nil, w.inputVars())
+		vars := w.inputVars()
+		for _, n := range w.st.notes {
+			w.noteVars(n.V, &vars)
+		}
+		r, m := w.sol.CheckModel(w.st.pc, nil, vars)
 		if r == "sat" {
 			inp := w.modelInputs(m)
+			var notes []string
+			for _, n := range w.st.notes {
+				notes = append(notes, n.K+"="+w.fmtNote(n.V, m))
+			}
 			hr.mu.Lock()
 			if _, have := hr.Witness[site]; !have {
 				hr.Witness[site] = inp
+				hr.WitnessNotes[site] = notes
 			}
 			hr.mu.Unlock()
 		}
@@ -434,4 +460,130 @@ func (w *Worker) modelInputs(m map[string]*bigInt) map[string]interface{} {
 		}
 	}
 	return out
+}
+
+type NoteRec struct {
+	K string
+	V Value
+}
+
+func (w *Worker) noteVars(v Value, out *[]*Term) {
+	seen := map[int64]bool{}
+	var visit func(v Value)
+	visit = func(v Value) {
+		switch x := v.(type) {
+		case *Term:
+			collectVars(x, seen, out)
+		case IfaceV:
+			if x.T != nil {
+				visit(x.V)
+			}
+		case StringV:
+			for _, b := range x.Bytes() {
+				collectVars(b, seen, out)
+			}
+		case SliceV:
+			for _, e := range w.sliceElems(x) {
+				visit(e)
+			}
+		case *ArrayV:
+			for _, e := range x.E {
+				visit(e)
+			}
+		case *BigV:
+			collectVars(x.T, seen, out)
+		case PtrV:
+			if x.O != nil {
+				if c, ok := w.st.heap.get(x.O); ok {
+					if b, ok := getPath(c, x.Path).(*BigV); ok {
+						collectVars(b.T, seen, out)
+					}
+				}
+			}
+		}
+	}
+	visit(v)
+}
+
+// fmtNote renders a noted value under model m the way the native vfNote does.
+func (w *Worker) fmtNote(v Value, m map[string]*bigInt) string {
+	cache := map[int64]*Term{}
+	ev := func(t *Term) *Term { return evalTerm(t, m, cache) }
+	iv, ok := v.(IfaceV)
+	if !ok {
+		return "?"
+	}
+	if iv.T == nil {
+		return "<nil>"
+	}
+	switch x := iv.V.(type) {
+	case *Term:
+		c := ev(x)
+		if !c.IsConst() {
+			return "?"
+		}
+		switch c.S.K {
+		case KBool:
+			if c.IsTrue() {
+				return "true"
+			}
+			return "false"
+		case KBV:
+			if isSigned(iv.T) {
+				return c.Signed().String()
+			}
+			return c.C.String()
+		default:
+			return c.C.String()
+		}
+	case StringV:
+		bs := x.Bytes()
+		out := make([]byte, len(bs))
+		for i, b := range bs {
+			c := ev(b)
+			if !c.IsConst() {
+				return "?"
+			}
+			out[i] = byte(c.Uint64())
+		}
+		return fmt.Sprintf("%q", string(out))
+	case SliceV, *ArrayV:
+		var els []Value
+		if s, ok := x.(SliceV); ok {
+			if s.O == nil {
+				return "nil"
+			}
+			els = w.sliceElems(s)
+		} else {
+			els = x.(*ArrayV).E
+		}
+		out := "["
+		for i, e := range els {
+			if i > 0 {
+				out += " "
+			}
+			t, ok := e.(*Term)
+			if !ok {
+				return "?"
+			}
+			c := ev(t)
+			if !c.IsConst() {
+				return "?"
+			}
+			out += c.C.String()
+		}
+		return out + "]"
+	case *BigV:
+		c := ev(x.T)
+		if c.IsConst() {
+			return c.C.String()
+		}
+		return "?"
+	case PtrV:
+		if x.O == nil {
+			return "<nilptr>"
+		}
+		return "?"
+	}
+	return "?"
 }
